@@ -94,6 +94,17 @@ impl Vm {
             }
         }
 
+        // A quasiquote template is data: only what it unquotes is expanded
+        if proc.is_quasiquote() {
+            return match rest.car() {
+                Some(template) => {
+                    let template = self.transform_template(template, 0)?;
+                    Ok(Cell::new_list(vec![proc.clone(), template]))
+                }
+                None => Ok(expr.clone()),
+            };
+        }
+
         if let Some(sym) = self.heap.get_sym_ref(proc) {
             let vcell = match self.globenv.get(sym.as_ptr()?) {
                 Some(VCell::Ptr(ptr)) => Some(self.heap.get_at_index(ptr).clone()),
@@ -116,6 +127,53 @@ impl Vm {
         } else {
             let rest = self.transform(rest)?;
             Ok(Cell::new_improper_list(v, rest))
+        }
+    }
+
+    /// Transform Template
+    ///
+    /// Rebuild a quasiquote template, applying transform() to the expressions
+    /// it unquotes at its own nesting level and leaving the rest as literal
+    /// data. Mirrors the walk of compile_quasiquote.
+    fn transform_template(&mut self, template: &Cell, mut depth: usize) -> Result<Cell, Error> {
+        match template {
+            Cell::Pair(car, cdr) => {
+                if car.is_unquote() {
+                    if depth == 0 {
+                        return match cdr.car() {
+                            Some(expr) => {
+                                let expr = self.transform(expr)?;
+                                Ok(Cell::new_list(vec![(**car).clone(), expr]))
+                            }
+                            None => Ok(template.clone()),
+                        };
+                    }
+                    depth -= 1;
+                }
+                if car.is_quasiquote() {
+                    depth += 1;
+                }
+                let mut v = vec![];
+                let mut rest = template;
+                while rest.is_pair() {
+                    v.push(self.transform_template(rest.car().unwrap(), depth)?);
+                    rest = rest.cdr().unwrap();
+                }
+                if rest.is_nil() {
+                    Ok(Cell::new_list(v))
+                } else {
+                    let rest = self.transform_template(rest, depth)?;
+                    Ok(Cell::new_improper_list(v, rest))
+                }
+            }
+            Cell::Vector(vector) => {
+                let mut v = Vec::with_capacity(vector.len());
+                for it in vector {
+                    v.push(self.transform_template(it, depth)?);
+                }
+                Ok(Cell::Vector(v))
+            }
+            cell => Ok(cell.clone()),
         }
     }
 
